@@ -496,19 +496,43 @@ def patMatch (allowed actual : Bytes) : Bool :=
 def statusCodeMatches (actual configured : Nat) : Bool :=
   actual = configured || (configured < 100 && actual ≥ configured * 100 && actual < (configured + 1) * 100)
 
+/-- `textproto.CanonicalMIMEHeaderKey` on a field name made of letters, digits and `-` -/
+def canonKeyAux : Bytes → Bool → Bytes
+  | [], _ => []
+  | c :: cs, upper =>
+    (if upper then (if 97 ≤ c && c ≤ 122 then c - 32 else c) else lowerByte c) :: canonKeyAux cs (c == 45)
+
+def canonKey (k : Bytes) : Bytes := canonKeyAux k true
+
 structure Matcher where
-  codes : Option (List Nat)     -- `StatusCode` (`none` = nil: any status)
-  ct : Option (List Bytes)      -- `Headers{"Content-Type": …}` (`none` = no header constraint, `[]` = must exist)
+  codes : Option (List Nat)                      -- `StatusCode` (`none` = nil: any status)
+  headers : List (Bytes × Option (List Bytes))   -- `Headers`: raw map key ↦ allowed values (`none` = nil: must be absent)
+
+/-- one entry of `matchHeaders` (matchers.go:1024-1065): nil = the field must be absent, an empty non-nil
+    list = it must exist, otherwise some actual value must match some allowed value -/
+def headerFieldOk (h : Hdr) (field : Bytes) (allowed : Option (List Bytes)) : Bool :=
+  match allowed with
+  | none => (hValues h (canonKey field)).isEmpty
+  | some [] => !(hValues h (canonKey field)).isEmpty
+  | some pats => (hValues h (canonKey field)).any (fun actual => pats.any (fun p => patMatch p actual))
 
 def Matcher.matches (m : Matcher) (status : Nat) (h : Hdr) : Bool :=
   (match m.codes with
     | none => true
     | some cs => cs.any (statusCodeMatches status)) &&
-  (match m.ct with
-    | none => true
-    | some [] => !(hValues h kCT).isEmpty
-    | some pats => (hValues h kCT).any (fun actual => pats.any (fun p => patMatch p actual)))
+  m.headers.all (fun e => headerFieldOk h e.1 e.2)
 
-def defaultMatcher : Matcher := ⟨none, some defaultCtPats⟩
+/-- `Provision`: the default response matcher (encode.go:84-127) -/
+def defaultMatcher : Matcher := ⟨none, [(kCT, some defaultCtPats)]⟩
+
+/-- `Provision`: `enc.Matcher == nil` means the default -/
+def provisionMatcher : Option Matcher → Matcher
+  | none => defaultMatcher
+  | some m => m
+
+/-- `Validate` (encode.go:133-147): every preferred encoding is enabled, none is listed twice -/
+def validatePrefer (offered : List Bytes) : List Bytes → Bool
+  | [] => true
+  | p :: ps => offered.contains p && !ps.contains p && validatePrefer offered ps
 
 end CaddyModel.C15
